@@ -287,6 +287,48 @@ def run(ck: Check) -> int:
                                 sr.histogram['cancels'] = sr.histogram.get('cancels', 0) + 1
         sr.distinct = len(pats) * 32
     ck.search('force-flags-cancel-every-entry-point', s_cancel)
+
+    def s_walker_case(sr):
+        # the WALKER compares literal path segments itself (magic ones go through the compiled regex): both must follow the one case rule
+        # — CASE wins over IGNORECASE (added after seeded change C17i: Glob.__init__ derived its own case mode from FORCEWIN|IGNORECASE)
+        import os
+        import shutil
+        import tempfile
+        from wcmatch import pathlib as WP
+        tmp = tempfile.mkdtemp(prefix='c17w-', dir='/tmp')
+        sr.note = ('glob / iglob / Path.glob on a tree with mixed-case names: patterns whose literal segments differ from the names only in ASCII '
+                   'case x {none, IGNORECASE, CASE, IGNORECASE|CASE} (str and bytes): found exactly when the case rule in force is case-insensitive; '
+                   'and glob agrees with globmatch on the found path')
+        try:
+            os.makedirs(os.path.join(tmp, 'Docs', 'Sub'))
+            for f in ('Docs/ReadMe.txt', 'Docs/Sub/Note.md', 'TOP.txt'):
+                open(os.path.join(tmp, f), 'w').close()
+            cases = [('docs/*.txt', 'Docs/ReadMe.txt'), ('docs/readme.txt', 'Docs/ReadMe.txt'), ('DOCS/sub/*.md', 'Docs/Sub/Note.md'), ('top.txt', 'TOP.txt'),
+                     ('*/SUB/note.md', 'Docs/Sub/Note.md'), ('docs/**/note.md', 'Docs/Sub/Note.md'), ('Docs/ReadMe.txt', 'Docs/ReadMe.txt'), ('d*/readme.TXT', 'Docs/ReadMe.txt')]
+            for pat, target in cases:
+                for cm in (0, G.IGNORECASE, G.CASE, G.IGNORECASE | G.CASE):
+                    ci = bool(cm & G.IGNORECASE) and not cm & G.CASE
+                    exact = pat.replace('*', '') in target or pat == target
+                    want = [target] if (ci or pat == target) else []
+                    fl = cm | G.GLOBSTAR
+                    runs = [('glob', lambda: G.glob(pat, flags=fl, root_dir=tmp)),
+                            ('iglob(bytes)', lambda: [os.fsdecode(x) for x in G.iglob(os.fsencode(pat), flags=fl, root_dir=os.fsencode(tmp))]),
+                            ('Path.glob', lambda: [str(x.relative_to(tmp)) for x in WP.Path(tmp).glob(pat, flags=fl)])]
+                    for api, call in runs:
+                        sr.evaluations += 1
+                        got = call()
+                        if got != want:
+                            ck.report(Failing(f'{api}({pat!r}) under the case flags {cm:#x}: {got} — the case rule in force is case-{"in" if ci else ""}sensitive',
+                                              {'api': api, 'pattern': pat, 'flags': fl, 'tree': 'Docs/ReadMe.txt Docs/Sub/Note.md TOP.txt'}, want, got), None)
+                            sr.histogram['FAIL'] = sr.histogram.get('FAIL', 0) + 1
+                        else:
+                            sr.histogram['holds'] = sr.histogram.get('holds', 0) + 1
+                    if bool(G.globmatch(target, pat, flags=fl)) != bool(want):
+                        ck.report(Failing(f'globmatch({target!r}, {pat!r}) under the case flags {cm:#x} is {not bool(want)}', {'api': 'globmatch', 'pattern': pat, 'name': target, 'flags': fl}, bool(want), not bool(want)), None)
+            sr.distinct = len(cases) * 4
+        finally:
+            shutil.rmtree(tmp, ignore_errors=True)
+    ck.search('walker-case-rule', s_walker_case)
     if drv:
         drv.close()
     return ck.finish()
